@@ -518,6 +518,23 @@ type c11HolderPropsFlat struct {
 	U string
 }
 
+// a mixin whose tagged fields have the names of fields the embedding component declares itself
+// (Go's selectors reach only the outer ones; the container processes fields, not selectors)
+type C11ShadowMix struct {
+	W scen.Iface `wire:"prov"`
+	V string     `value:"${k}"`
+	C string     `mytag:"v,arg=a b"`
+	U string
+}
+type C11ShadowMid struct{ C11ShadowMix }
+type c11HolderShadow struct {
+	C11ShadowMid
+	W scen.Iface `wire:""`
+	V string     `value:"lit"`
+	C string     `mytag:"outer"`
+	U string
+}
+
 // the embedding component itself satisfies the interface its mixin's points ask for (the container
 // never injects a component into itself: the direct and the embedded shape must agree on who is left)
 type C11SelfMix struct {
@@ -596,7 +613,7 @@ func c11Static(c *core.Ctx) {
 	}
 	gen := func(yield func(sc) bool) {
 		for _, s := range []string{"unexported-embed", "exported>unexported", "unexported>exported>unexported", "decoys", "diamond", "two-depths", "tagged-embedded", "mixin-with-properties",
-			"holder-is-candidate/1", "holder-is-candidate/2", "holder-is-candidate/primary/1", "holder-is-candidate/primary/2", "holder-is-candidate/unnamed-peer"} {
+			"shadowed-names", "holder-is-candidate/1", "holder-is-candidate/2", "holder-is-candidate/primary/1", "holder-is-candidate/primary/2", "holder-is-candidate/unnamed-peer"} {
 			if !yield(sc{s}) {
 				return
 			}
@@ -630,6 +647,27 @@ func c11Static(c *core.Ctx) {
 		want := view(&fin, fprov)
 		if !fo.OK() {
 			c.Report(key, "flat-failed", "the flat reference shape did not start: "+scen.FirstLine(fo.Err)+fo.Panic, s)
+			return
+		}
+		if s.Shape == "shadowed-names" {
+			x := &c11HolderShadow{U: "SENTINEL"}
+			x.C11ShadowMix.U, x.C11ShadowMix.C, x.C = "SENTINEL", "SENTINEL", "SENTINEL"
+			rec, o, prov := run(x)
+			sort.Strings(rec.seen)
+			in := &x.C11ShadowMix
+			got := fmt.Sprintf("inner W=%v V=%q C=%q U=%q | outer W=%v V=%q C=%q U=%q | custom=%v", in.W == scen.Iface(prov), in.V, in.C, in.U, x.W == scen.Iface(prov), x.V, x.C, x.U, rec.seen)
+			want := `inner W=true V="cfg" C="SENTINEL" U="SENTINEL" | outer W=true V="lit" C="SENTINEL" U="SENTINEL" | custom=[C=outer C=v.Arg(a,b)]`
+			switch {
+			case !o.OK():
+				c.Outcome(s.Shape + "/failed")
+				c.Report(key, "embedding-changes-outcome", fmt.Sprintf("shape %s: start-up failed: %s%s", s.Shape, scen.FirstLine(o.Err), o.Panic), s)
+			case got != want:
+				c.Outcome(s.Shape + "/differs")
+				c.Report(key, "embedding-changes-value", fmt.Sprintf("shape %s (a mixin's tagged fields carry the names of fields of the embedding struct): [%s], want [%s]", s.Shape, got, want), s)
+			default:
+				c.Outcome(s.Shape + "/both-processed")
+			}
+			c.Sample(map[string]any{"shape": s.Shape, "fields": got})
 			return
 		}
 		if strings.HasPrefix(s.Shape, "holder-is-candidate") {
